@@ -388,6 +388,162 @@ def _returned_name(fi, fn, allow=(), rets=None):
 # ---------------------------------------------------------------------------
 # D1
 
+def _strip_where(v):
+    """The mask behind an index form of it (np.where(m)[0], np.nonzero(m)[0],
+    np.where(m), np.flatnonzero(m)): the same cells of a 1-d array."""
+    for _ in range(3):
+        if isinstance(v, ast.Subscript) and const_value(v.slice) == 0 and isinstance(v.value, ast.Call):
+            v = v.value
+        if isinstance(v, ast.Call) and call_name(v) in ('np.where', 'np.nonzero', 'np.flatnonzero') \
+                and len(v.args) == 1 and not v.keywords:
+            v = v.args[0]
+            continue
+        break
+    return v
+
+
+def _tolerance_atom(e, pair):
+    """Is `e` a closeness predicate of exactly the two operands `pair`
+    (np.isclose(a, b, ...), abs(a - b) < tol / <= tol)?  Returns the polarity
+    of 'close' (True: e is true when the operands are close), or None.  Such a
+    predicate is TRUE for equal finite operands and can be true or false for
+    operands that differ, in either direction."""
+    if isinstance(e, ast.Call) and call_name(e) in ('np.isclose', 'numpy.isclose', 'math.isclose') and len(e.args) >= 2:
+        if {u(e.args[0]), u(e.args[1])} == set(pair):
+            tol = [const_value(k.value, default='?') for k in e.keywords if k.arg in ('rtol', 'atol', 'rel_tol', 'abs_tol')]
+            if len(e.args) == 2 and not (tol and all(t == 0 for t in tol)):
+                return True
+        return None
+    if isinstance(e, ast.Compare) and len(e.ops) == 1:
+        less = Cmp(e.left, type(e.ops[0]), e.comparators[0]).as_less()
+        if less is None:
+            return None
+        small, _, big = less
+        for side, pol in ((small, True), (big, False)):
+            m = match('abs(_A - _B)', side) or match('np.abs(_A - _B)', side) or match('np.absolute(_A - _B)', side) \
+                or match('np.fabs(_A - _B)', side)
+            other = big if pol else small
+            if m is not None and {u(m['_A']), u(m['_B'])} == set(pair) and not (names_loaded(other) & set(pair)):
+                k = const_value(other, default='?')
+                if k == '?' or (isinstance(k, (int, float)) and k > 0):
+                    return pol
+    return None
+
+
+def _mask_truth(tree, pair, order, tol):
+    """Value of the mask formula for operands (new, cur) = pair in the weak
+    order `order` ('lt': new < cur, 'eq', 'gt') with the closeness predicates
+    valued `tol`; raises KeyError on a component it cannot evaluate."""
+    k = tree[0]
+    if k == 'and':
+        return _mask_truth(tree[1], pair, order, tol) and _mask_truth(tree[2], pair, order, tol)
+    if k == 'or':
+        return _mask_truth(tree[1], pair, order, tol) or _mask_truth(tree[2], pair, order, tol)
+    if k == 'not':
+        return not _mask_truth(tree[1], pair, order, tol)
+    e = tree[1]
+    if k == 'atom':
+        c = e
+        e = ast.Compare(left=c.lhs, ops=[c.op()], comparators=[c.rhs])
+        a, b = u(c.lhs), u(c.rhs)
+        if {a, b} == set(pair) and c.op in (ast.Lt, ast.LtE, ast.Gt, ast.GtE, ast.Eq, ast.NotEq):
+            o = order if a == pair[0] else {'lt': 'gt', 'gt': 'lt', 'eq': 'eq'}[order]
+            return {ast.Lt: o == 'lt', ast.LtE: o != 'gt', ast.Gt: o == 'gt', ast.GtE: o != 'lt',
+                    ast.Eq: o == 'eq', ast.NotEq: o != 'eq'}[c.op]
+    if isinstance(e, ast.Call) and call_name(e) in ('np.less', 'np.less_equal', 'np.greater', 'np.greater_equal') \
+            and len(e.args) == 2 and not e.keywords:
+        op = {'less': ast.Lt, 'less_equal': ast.LtE, 'greater': ast.Gt, 'greater_equal': ast.GtE}[call_name(e)[3:]]
+        return _mask_truth(('atom', Cmp(e.args[0], op, e.args[1])), pair, order, tol)
+    pol = _tolerance_atom(e, pair)
+    if pol is None:
+        raise KeyError(u(e))
+    close = True if order == 'eq' else tol
+    return close if pol else not close
+
+
+def _d1_commit_mask(ck):
+    """The running-minimum sweep located by ROLE when the plain idiom
+    `M = new < cur; cur[M] = new[M]; lab[M] = i` was not found: a store into a
+    returned array `cur`, inside a loop, under an index whose expansion is an
+    elementwise formula containing an ordering test between `cur` and one
+    other array `new`.  Necessary condition (minimal distance, exactly that
+    distance): the cells committed are those with new < cur (or new <= cur) -
+    decided by a truth table over the weak order of (new, cur); a closeness
+    predicate of the same two operands (np.isclose, abs(new - cur) < tol) is
+    free for unequal operands.  A formula that omits a strictly nearer
+    candidate or admits a farther one for some valuation is a VIOLATION;
+    components the table cannot evaluate leave the floor's INCOMPLETE."""
+    from ..patterns import mask_atoms
+    rule = 'C10.D1.commit.mask'
+    F = 'assign_to_nearest_center'
+    mod = ck.repo.mod(CU)
+    fn = mod.func(F)
+    fi = finfo(mod, fn)
+    state = set()
+    for r in returns_of(fn):
+        rv = r.value
+        if isinstance(rv, ast.Name) and fi.resolve(rv) is not None:
+            rv = fi.resolve(rv)
+        if rv is not None:
+            state |= {x.id for x in (rv.elts if isinstance(rv, ast.Tuple) else [rv]) if isinstance(x, ast.Name)}
+    loops = [l for l in walk_local(fn) if isinstance(l, (ast.For, ast.While))]
+    seen = set()
+    for st, t in subscript_stores(fn):
+        if not (isinstance(t.value, ast.Name) and t.value.id in state and isinstance(st, ast.Assign)
+                and any(_inside(st, l) for l in loops)):
+            continue
+        cur = t.value.id
+        idx = _strip_where(xp(fi, t.slice, strict=False, stop=tuple(state)))
+        tree = mask_atoms(idx)
+        if tree[0] == 'opaque' and _strip_where(idx) is idx and not isinstance(idx, ast.Call):
+            continue            # a scalar / name index: not a mask store
+        others = set()
+        stack = [tree]
+        while stack:
+            x = stack.pop()
+            if x[0] in ('and', 'or'):
+                stack += [x[1], x[2]]
+            elif x[0] == 'not':
+                stack.append(x[1])
+            elif x[0] == 'atom':
+                a, b = x[1].lhs, x[1].rhs
+                if x[1].as_less() is not None and isinstance(a, ast.Name) and isinstance(b, ast.Name) and cur in (a.id, b.id) \
+                        and a.id != b.id:
+                    others.add(a.id if b.id == cur else b.id)
+        if len(others) != 1:
+            continue
+        new = others.pop()
+        key = (cur, new, ct(idx))
+        if key in seen:
+            continue
+        seen.add(key)
+        pair = (new, cur)
+        try:
+            table = {(o, tol): _mask_truth(tree, pair, o, tol) for o in ('lt', 'eq', 'gt') for tol in (True, False)}
+        except KeyError as e:
+            ck.missing(rule, '%s: commit mask `%s` of `%s` has a component the truth table cannot evaluate: %s' % (
+                F, ct(idx)[:120], cur, str(e)[:80]))
+            continue
+        lost = [tol for tol in (True, False) if not table[('lt', tol)]]
+        worse = [tol for tol in (True, False) if table[('gt', tol)]]
+        if lost or worse:
+            why = []
+            if lost:
+                why.append('a candidate that is strictly nearer (%s < %s) is NOT committed%s: the frame keeps a centre '
+                           'that is not at minimal distance and reports a distance that is not the minimum' % (
+                               new, cur, '' if len(lost) == 2 else ' when the closeness predicate says the two are close'))
+            if worse:
+                why.append('a candidate that is farther (%s > %s) IS committed%s' % (
+                    new, cur, '' if len(worse) == 2 else ' for some value of the closeness predicate'))
+            ck.bad(rule, mod, st, F, '%s[%s] = ...' % (cur, ct(idx)),
+                   'the cells of the running minimum `%s` that take the candidate `%s` must be exactly those with '
+                   '%s < %s (ties may go either way); found the mask `%s`: %s' % (cur, new, new, cur, ct(idx), '; '.join(why)))
+        else:
+            ck.ok(rule, mod, st, '%s[%s] = ...' % (cur, ct(idx)),
+                  'mask commits exactly the strictly nearer candidates (ties: %s)' % (
+                      'committed' if table[('eq', True)] else 'kept'))
+
+
 def d1_metric_arg_order(ck):
     rule = 'C10.D1.metric-args'
     F = 'assign_to_nearest_center'
@@ -1252,6 +1408,63 @@ def _d3_helper_walk(ck, rule, mod, fn, fi, o, ps):
     return h, hfi, hfors[0], pi[0], pl[0], call
 
 
+def _monotone_step(s, name):
+    """Is statement s `name += <positive int>` / `name = name + <positive int>`?"""
+    if isinstance(s, ast.AugAssign) and isinstance(s.target, ast.Name) and s.target.id == name and isinstance(s.op, ast.Add):
+        k = const_value(s.value)
+        return type(k) is int and k > 0
+    if isinstance(s, ast.Assign) and len(s.targets) == 1 and isinstance(s.targets[0], ast.Name) and s.targets[0].id == name:
+        m = match('_T + _K', s.value) or match('_K + _T', s.value)
+        if m is not None and isinstance(m['_T'], ast.Name) and m['_T'].id == name:
+            k = const_value(m['_K'])
+            return type(k) is int and k > 0
+    return False
+
+
+def _d3_carried_walk(ck, rule, mod, fn, fi, o, F):
+    """Walk state carried from one flat index to the next.  Necessary condition
+    of the flat index -> (trajectory, frame) conversion for ARBITRARY (unsorted)
+    index lists: the trajectory component emitted for one index must not depend
+    on the indices seen before.  Located by role: the pair appended inside the
+    loop over the indices; its first component is a counter `T`.  When every
+    rebinding of `T` inside the index loop is a positive increment and `T` is
+    only initialised before the loop, the emitted trajectory components are
+    non-decreasing in loop order whatever the indices are - wrong for any index
+    that addresses an earlier trajectory than its predecessor.  Returns True
+    when the construct was decided here."""
+    apps = [c for c in calls_in(o) if isinstance(c.func, ast.Attribute) and c.func.attr == 'append'
+            and isinstance(c.func.value, ast.Name) and len(c.args) == 1 and not c.keywords]
+    if len(apps) != 1:
+        return False
+    app = apps[0]
+    if _returned_name(fi, fn) != app.func.value.id:
+        return False
+    pair = app.args[0] if isinstance(app.args[0], ast.Tuple) else xp(fi, app.args[0])
+    if not (isinstance(pair, ast.Tuple) and len(pair.elts) == 2 and isinstance(pair.elts[0], ast.Name)):
+        return False
+    T = pair.elts[0].id
+    if T in target_names(o.target) or T in params(fn):
+        return False
+    inside = _updates(o, T)
+    allu = _updates(fn, T)
+    outside = [s for s in allu if not any(s is x for x in inside)]
+    binders = [n for n in walk_local(fn) if isinstance(n, (ast.For, ast.With, ast.comprehension))
+               and T in target_names(getattr(n, 'target', None) or ast.Tuple(elts=[], ctx=ast.Store()))]
+    if binders or not inside or not outside:
+        return False
+    if not all(_monotone_step(s, T) for s in inside):
+        return False
+    # every initialisation outside the loop happens before it (never re-entered between two indices)
+    if any(fi.cfg.reachable(o, s) for s in outside):
+        return False
+    ck.bad(rule + '.reset', mod, o, F, '%s; %s' % ('; '.join(u(s) for s in outside), '; '.join(u(s) for s in inside)),
+           'the trajectory counter `%s` of the emitted (trajectory, frame) pair is initialised once before the loop '
+           'over the flat indices and only ever incremented inside it: the walk over the lengths is carried over '
+           'from the previous index instead of restarting, so an index addressing an earlier trajectory than its '
+           'predecessor (flat centre indices are not sorted) gets a later trajectory and a wrong/negative frame' % T)
+    return True
+
+
 def d3_partition_indices(ck):
     rule = 'C10.D3.partition-indices'
     F = 'partition_indices'
@@ -1279,6 +1492,8 @@ def d3_partition_indices(ck):
         return
     idx = o.target.id
     if len(nest) != 1:
+        if _d3_carried_walk(ck, rule, mod, fn, fi, o, F):
+            return
         hw = _d3_helper_walk(ck, rule, mod, fn, fi, o, ps)
         if hw is None:
             return
@@ -2727,10 +2942,130 @@ def _loop_variable_rebinds(ck):
     return {}
 
 
+def _dispatch_sites(fn):
+    """Call through a function-valued local: a statement list holding
+    `if c: ...; f = h1  [elif ...]  else: ...; f = h2` immediately followed by
+    the single use of `f`, the statement `f(args)` / `x = f(args)` - yields
+    (block, position of the if, f, [(arm statement list, helper name)])."""
+    def arms_of(s):
+        out = []
+        while True:
+            out.append(s.body)
+            if len(s.orelse) == 1 and isinstance(s.orelse[0], ast.If):
+                s = s.orelse[0]
+                continue
+            if not s.orelse:
+                return None
+            out.append(s.orelse)
+            return out
+    for node in ast.walk(fn):
+        for field in ('body', 'orelse', 'finalbody'):
+            blk = getattr(node, field, None)
+            if not isinstance(blk, list):
+                continue
+            for k in range(len(blk) - 1):
+                s, c = blk[k], blk[k + 1]
+                if not isinstance(s, ast.If):
+                    continue
+                call = c.value if isinstance(c, (ast.Expr, ast.Assign)) else None
+                if not (isinstance(call, ast.Call) and isinstance(call.func, ast.Name)):
+                    continue
+                f = call.func.id
+                arms = arms_of(s)
+                if arms is None:
+                    continue
+                hs = []
+                for a in arms:
+                    last = a[-1] if a else None
+                    if isinstance(last, ast.Assign) and len(last.targets) == 1 and isinstance(last.targets[0], ast.Name) \
+                            and last.targets[0].id == f and isinstance(last.value, ast.Name):
+                        hs.append((a, last.value.id))
+                uses = [n for n in ast.walk(fn) if isinstance(n, ast.Name) and n.id == f]
+                if len(hs) == len(arms) and len(uses) == len(arms) + 1:
+                    yield blk, k, f, hs
+
+
+def _devirtualise_dispatch(repo, rel, qual):
+    """Front-end style normalisation (behaviour preserving, no verdict): a
+    call through a local that every arm of the preceding if/else binds to a
+    private module-level helper absent from the reference snapshot is moved
+    into the arms as a direct call (the test is evaluated first, then the
+    arguments, exactly as before; the local has no other use), and the helpers
+    are then inlined by sa/inline.py under its own faithfulness conditions.
+    If the result has the reference's normal form the reference spelling is
+    analysed.  What was done is recorded in repo.inlined (evidence)."""
+    import copy
+    import os
+    from .. import inline, normal, rename
+    from ..core import Module, _all_functions, _canon_tree
+    try:
+        mod = repo.mod(rel)
+        fn = mod.functions.get(qual)
+        if fn is None or not list(_dispatch_sites(fn)):
+            return
+        ref_path = os.path.join(rename.REFERENCE, rel)
+        if not os.path.exists(ref_path):
+            return
+        with open(ref_path, encoding='utf-8') as fh:
+            rsrc = fh.read()
+        rtree = _canon_tree(ast.parse(rsrc))
+        hf, hm = inline.new_private_helpers(mod.tree, rtree)
+        where = [(f, holder, i) for (q, _), (f, holder, i) in _all_functions(mod.tree) if f is fn]
+        if len(where) != 1:
+            return
+        _, holder, idx = where[0]
+        clone = copy.deepcopy(fn)
+        used = set()
+        for blk, k, f, hs in list(_dispatch_sites(clone)):
+            if not all(h in hf for _, h in hs):
+                continue
+            c = blk[k + 1]
+            if any(isinstance(n, ast.Name) and n.id == f for a in c.value.args for n in ast.walk(a)):
+                continue
+            for arm, h in hs:
+                d = copy.deepcopy(c)
+                d.value.func = ast.copy_location(ast.Name(id=h, ctx=ast.Load()), d.value.func)
+                arm[-1] = d
+                used.add(h)
+            del blk[k + 1]
+        if not used:
+            return
+        inl = inline.Inliner({h: hf[h] for h in used}, {}, cls=None)
+        if not inl.run(clone):
+            return
+        ast.fix_missing_locations(clone)
+        new = clone
+        rfn = dict(_all_functions(rtree)).get((qual, 0))
+        if rfn is not None:
+            sigs = repo._ref_signatures()
+            try:
+                if normal.nf_key(clone, sigs) == normal.nf_key(rfn[0], sigs):
+                    rfn[0].decorator_list = clone.decorator_list
+                    new = rfn[0]
+                    repo.equivalent.setdefault(rel, []).append(qual)
+            except Exception:
+                pass
+        holder[idx] = new
+        ast.fix_missing_locations(mod.tree)
+        cur = Module(rel, mod.src, mod.tree, mod.kind)
+        repo.modules[rel] = cur
+        repo.inlined.setdefault(rel, {})[qual] = sorted(set(inl.done) | used)
+        if new is clone:
+            try:
+                rename.normalise_module(cur, Module(rel, rsrc, rtree, mod.kind), repo._ref_signatures())
+            except Exception:
+                pass
+    except Exception as e:       # never let a normalisation break the check
+        repo.errors.append((rel + ' (dispatch devirtualisation %s)' % qual, repr(e)))
+
+
 def check(ck):
+    _devirtualise_dispatch(ck.repo, CU, 'assign_to_nearest_center')
     cu = ck.repo.mod(CU)
     n = check_running_min_commit(ck, 'C10.D1.commit', cu, 'assign_to_nearest_center',
                                  False, 'enumerate-index')
+    if n == 0:
+        _d1_commit_mask(ck)
     ck.floor('C10.D1.commit', n, 1, 'running-minimum commit')
     d2_argmin_branch(ck)
     d1_metric_arg_order(ck)
